@@ -272,17 +272,17 @@ func checkDirection(w *World, h *History, r *RPCHist, dir string, sends, recvs [
 	}
 	_ = d
 	k := 0
+	sendCur := 0
 	for _, o := range recvs {
 		if !o.OK() {
 			continue
 		}
-		// number of sends invoked before this receive returned
-		invoked := 0
-		for _, s := range sends {
-			if s.Inv < o.Ret {
-				invoked++
-			}
+		// number of sends invoked before this receive returned (both lists are in
+		// sequence order: advance a cursor)
+		for sendCur < len(sends) && sends[sendCur].Inv < o.Ret {
+			sendCur++
 		}
+		invoked := sendCur
 		det := map[string]string{"direction": dir, "shape": shapeNames[r.Plan.Shape]}
 		if k >= invoked {
 			det["got_len"] = fmt.Sprint(o.Res.Len)
